@@ -20,7 +20,9 @@ Definition is_zero_ch (c : Z) : bool := c =? 48.
 Fixpoint digs (fuel : nat) (n : Z) (acc : str) : str :=
   match fuel with
   | O => acc
-  | S f => if n <? 10 then (48 + n) :: acc else digs f (n / 10) ((48 + n mod 10) :: acc)
+  | S f =>
+      if n <? 10 then (48 + n) :: acc
+      else let qr := Z.div_eucl n 10 in digs f (fst qr) ((48 + snd qr) :: acc)    (* n / 10, n mod 10 *)
   end.
 Definition big_string (n : Z) : str := digs (S (Z.to_nat (Z.log2 n))) n [].
 
@@ -28,15 +30,19 @@ Definition big_string (n : Z) : str := digs (S (Z.to_nat (Z.log2 n))) n [].
 Definition val_digits (l : str) : Z := fold_left (fun a c => 10 * a + (c - 48)) l 0.
 
 (* big.Int.SetString(s, 10): optional sign, at least one digit, digits only, nothing else *)
+Definition split_sign (l : str) : bool * str :=
+  match l with
+  | c :: r => if c =? 45 then (true, r) else if c =? 43 then (false, r) else (false, l)
+  | [] => (false, l)
+  end.
 Definition big_set_string (l : str) : option Z :=
-  let '(neg, d) := match l with
-                   | 45 :: r => (true, r)
-                   | 43 :: r => (false, r)
-                   | _ => (false, l)
-                   end in
-  match d with
+  let sd := split_sign l in
+  match snd sd with
   | [] => None
-  | _ :: _ => if forallb is_digit d then Some (if neg then - val_digits d else val_digits d) else None
+  | _ :: _ =>
+      if forallb is_digit (snd sd)
+      then Some (if fst sd then - val_digits (snd sd) else val_digits (snd sd))
+      else None
   end.
 
 (* ---------- fmt ---------- *)
